@@ -95,6 +95,10 @@ type Unit struct {
 	closures     map[*Term]*closureVal
 	needStrOrder bool
 	entryEnv     *SpecEnv
+	args, fvs    []*SV
+	retState     *State
+	retVals      []*SV
+	usedContracts map[string]bool
 }
 
 func (u *Unit) warn(format string, args ...interface{}) {
